@@ -884,6 +884,8 @@ def make_function_signal(times, func, lead, trail, filters, via_with_times):
 def buffer_probe(rng, n, times):
     """A pure delay (advance) by k samples brings the leading (trailing) buffer into the window: the values must be
     func(t - k dt) (func(t + k dt)) - the buffer samples have to sit on the continued grid."""
+    if rng.random() < 0.5:
+        return buffer_eval(n, times, gen_buffer_state(rng, n, times))
     dt = float(times[1] - times[0])
     span = n * dt
     par = (rng.uniform(0.5, 3) * 10.0 ** rng.randint(-9, 3), times[0] + rng.uniform(-0.2, 1.0) * span, rng.uniform(3, 12) * dt, rng.uniform(0, 0.12) / dt)
@@ -894,7 +896,83 @@ def buffer_probe(rng, n, times):
     return buffer_eval(n, times, {"buffers": [lead, trail], "k": k, "via_with_times": via, "pulse": list(par), "fr_delay": rng.randint(0, 1)})
 
 
+def buffer_state_eval(n, times, q, verbose=False):
+    """Buffers are per-component state.  (i) a component whose buffers were removed again (set_buffers(leading=0 / 0.0,
+    trailing=0 / 0.0, force=True)) behaves as if it never had any: a delay brings zeros, not func, into the window;
+    (ii) in a sum each component keeps ITS OWN buffers: after a delay of k samples a component with a leading buffer of at
+    least k samples contributes func(t - k dt) everywhere, a component without buffer contributes zeros in its first k samples
+    (either operand order).  Oracle: the analytic functions.  |k| <= N so that the 2N zero-padding excludes wrap-around."""
+    import pyrex
+    t = np.array(times, dtype=float)
+    dt = float(t[1] - t[0])
+    k = q["k"]
+    fa = pulse(*q["pulse_a"])
+    lead, trail = q["buffers_a"]
+
+    def masked(f):
+        v = f(t - k * dt)
+        if k >= 0:
+            v[:min(k, n)] = 0.0
+        else:
+            v[max(n + k, 0):] = 0.0
+        return v
+    try:
+        a = pyrex.FunctionSignal(t.copy(), fa)
+        a.set_buffers(leading=lead, trailing=trail)
+        maybe_read(a)
+        buffered = True
+        if q.get("reset") is not None:
+            zero = 0 if q["reset"] == "int0" else 0.0
+            a.set_buffers(leading=zero, trailing=zero, force=True)
+            buffered = False
+        want = fa(t - k * dt) if buffered else masked(fa)
+        amp, lip = abs(q["pulse_a"][0]), fa.lipschitz
+        s_ = a
+        if q.get("pulse_b"):
+            fb = pulse(*q["pulse_b"])
+            b = pyrex.FunctionSignal(t.copy(), fb)
+            s_ = a + b if q["order"] == "ab" else b + a
+            want = want + masked(fb)
+            amp, lip = amp + abs(q["pulse_b"][0]), lip + fb.lipschitz
+        maybe_read(s_)
+        s_.filter_frequencies(py_response(1, k * dt, 0.0, 0.0), force_real=bool(q["fr_delay"]))
+        got = np.asarray(s_.values, dtype=float)
+    except Exception as e:
+        return ("n=%d:exception" % n, "FunctionSignal buffer history raised %s: %s" % (type(e).__name__, e), q)
+    nfull = n + int(lead / dt) + int(trail / dt) + 2
+    tmax = float(np.max(np.abs(t))) + (abs(k) + nfull) * dt
+    tol = probe_tol(nfull, amp * math.sqrt(nfull), 1.0) * max(1, abs(k)) + lip * 64 * EPS * tmax * (1 + abs(k)) + amp * 1e-12
+    d = float(np.max(np.abs(got - want)))
+    if verbose:
+        print("values   :", got[:10], "\nexpected :", want[:10], "\nmax |diff| = %.3g, tolerance %.3g" % (d, tol))
+    if not d <= tol:
+        i = int(np.argmax(np.abs(got - want)))
+        return ("n=%d:buffer-state" % n,
+                "FunctionSignal%s: component with buffers %r/%r s%s, pure %s of %d samples (dt=%r): value %d is %.9g, the analytic functions give %.9g "
+                "(|diff| %.3g > %.3g, amplitude %.3g): buffers are not per-component state / a removed buffer still leaks into the window"
+                % (" sum (%s)" % ("buffered + plain" if q["order"] == "ab" else "plain + buffered") if q.get("pulse_b") else "", lead, trail,
+                   " then removed with set_buffers(%s, force=True)" % ("0" if q.get("reset") == "int0" else "0.0") if q.get("reset") else "",
+                   "delay" if k >= 0 else "advance", abs(k), dt, i, got[i], want[i], d, tol, amp), q)
+    return None
+
+
+def gen_buffer_state(rng, n, times):
+    dt = float(times[1] - times[0])
+    span = n * dt
+
+    def par():
+        return [rng.uniform(0.5, 3) * 10.0 ** rng.randint(-9, 3), times[0] + rng.uniform(-0.3, 1.1) * span, rng.uniform(3, 12) * dt, rng.uniform(0, 0.12) / dt]
+    lead, trail = max(gen_buffer(rng, dt, False), rng.randint(1, 12) * dt), max(gen_buffer(rng, dt, False), rng.randint(1, 12) * dt)
+    reset = rng.choice([None, None, "int0", "float0"])
+    kmax_f, kmax_b = (min(n, 8), min(n, 8)) if reset else (min(n, int(lead / dt)), min(n, int(trail / dt)))
+    k = rng.randint(0, kmax_f) if rng.random() < 0.6 else -rng.randint(0, kmax_b)
+    return {"pulse_a": par(), "pulse_b": par() if rng.random() < 0.65 else None, "buffers_a": [lead, trail], "order": rng.choice(["ab", "ba"]),
+            "reset": reset, "k": k, "fr_delay": rng.randint(0, 1), "state": True}
+
+
 def buffer_eval(n, times, q, verbose=False):
+    if q.get("state"):
+        return buffer_state_eval(n, times, q, verbose)
     t = np.array(times)
     dt = float(t[1] - t[0])
     lead, trail = q["buffers"]
@@ -1249,7 +1327,7 @@ PINS = [("pyrex/signals.py", "Signal.filter_frequencies"), ("pyrex/signals.py", 
         ("pyrex/signals.py", "FunctionSignal._full_times"), ("pyrex/signals.py", "FunctionSignal._value_window"),
         ("pyrex/signals.py", "FunctionSignal.values"), ("pyrex/signals.py", "FunctionSignal.set_buffers"), ("pyrex/signals.py", "FunctionSignal.with_times"),
         ("pyrex/signals.py", "FunctionSignal.__imul__"), ("pyrex/signals.py", "FunctionSignal.__itruediv__"), ("pyrex/signals.py", "FunctionSignal.copy"),
-        ("pyrex/signals.py", "Signal.__imul__"), ("pyrex/signals.py", "Signal.__itruediv__")]
+        ("pyrex/signals.py", "Signal.__imul__"), ("pyrex/signals.py", "Signal.__itruediv__"), ("pyrex/signals.py", "FunctionSignal.__add__")]
 
 
 def run(ctx):
